@@ -154,6 +154,9 @@ func main() {
 				cursor.LogError(key + " input requires a value")
 			}
 		}
+		if err := cursor.Err(); err != nil {
+			fatal(err.Error())
+		}
 	}
 
 	data, err := setUpStageData(root, profile, outputPath)
